@@ -54,6 +54,7 @@ pub fn run_session(calls: &[&str]) -> String {
     let mut out: Vec<String> = vec![];
     let mut held: Vec<Listing> = vec![];
     let mut waiting_input = false;
+    let mut last_err: Option<u16> = None;
     for call in calls {
         let c = call.as_bytes()[0];
         match c {
@@ -67,9 +68,18 @@ pub fn run_session(calls: &[&str]) -> String {
                 waiting_input = matches!(e, Event::Input(..));
                 out.push(show_event(&e));
             }
-            b'R' | b'A' => {
+            b'R' | b'A' | b'K' => {
                 let n: usize = if c == b'R' {
+                    last_err = None;
                     call[1..].parse().unwrap()
+                } else if c == b'K' {
+                    // CONT, but only when the last run was stopped by ?BREAK (STOP or interrupt)
+                    if last_err != Some(0) {
+                        continue;
+                    }
+                    rt.enter("CONT");
+                    last_err = None;
+                    call[1..].parse().unwrap_or(5000)
                 } else {
                     if !waiting_input {
                         continue;
@@ -84,6 +94,11 @@ pub fn run_session(calls: &[&str]) -> String {
                     let e = rt.execute(n);
                     if let Event::Running = e {
                         continue;
+                    }
+                    if let Event::Errors(errs) = &e {
+                        if let Some(first) = errs.first() {
+                            last_err = Some(error_code(first));
+                        }
                     }
                     out.push(show_event(&e));
                     if is_blocking(&e) {
